@@ -384,6 +384,129 @@ func c13inputUnits(tier string) []mc.Unit {
 		r.AddStates(4)
 		r.AddTransitions(4)
 	}})
+	// one long line of every kind (name, comment before / between / inside records, sequence) at lengths around the
+	// usual buffer sizes and in between
+	us = append(us, mc.Unit{Name: "long-lines", Weight: 60, Run: func(r *mc.Recorder) {
+		var cnt int64
+		for _, L := range []int{100, 1000, 4095, 4096, 4097, 5500, 10000, 65535, 65536, 65537, 70000, tier2(tier, 150000, 1100000)} {
+			for kind := 0; kind < 5; kind++ {
+				for _, crlf := range []bool{false, true} {
+					nl := "\n"
+					if crlf {
+						nl = "\r\n"
+					}
+					long := lcgString("ACGTN", L, uint32(L))
+					recs := []fasta.Fasta{{Name: "first record", Sequence: "ACGTACGTAC"}, {Name: "second", Sequence: "TTGACA"}}
+					var text string
+					switch kind {
+					case 0:
+						recs[0].Name = "n" + long
+						text = ">" + recs[0].Name + nl + "ACGTACGTAC" + nl + ">second" + nl + "TTGACA" + nl
+					case 1:
+						text = ";" + long + nl + ">first record" + nl + "ACGTACGTAC" + nl + ">second" + nl + "TTGACA" + nl
+					case 2:
+						text = ">first record" + nl + "ACGTACGTAC" + nl + ";" + long + nl + ">second" + nl + "TTGACA" + nl
+					case 3:
+						text = ">first record" + nl + "ACGTA" + nl + ";" + long + nl + "CGTAC" + nl + ">second" + nl + "TTG" + nl + ";x" + nl + "ACA" + nl
+					case 4:
+						recs[1].Sequence = long + "TTGACA"
+						text = ">first record" + nl + "ACGTACGTAC" + nl + ">second" + nl + long + nl + "TTGACA" + nl
+					}
+					what := []string{"name line", "comment line before the first record", "comment line between records", "comment line inside a sequence", "sequence line"}[kind]
+					for _, chunk := range []int{0, 1 << 12, 1000} {
+						var got []fasta.Fasta
+						p := catch(func() {
+							if chunk == 0 {
+								got = fasta.Parse(strings.NewReader(text))
+							} else {
+								var cuts []int
+								for c := chunk; c < len(text); c += chunk {
+									cuts = append(cuts, c)
+								}
+								got = fasta.Parse(&chunkReader{data: []byte(text), cuts: cuts})
+							}
+						})
+						cnt++
+						if p != "" || !c13equal(got, recs) {
+							r.Failf("layout-independent", fmt.Sprintf("%s of %d bytes, crlf=%v, reads of %d bytes", what, L+1, crlf, chunk), []string{"long-line"}, c13show(recs), c13show(got)+p)
+						}
+					}
+				}
+			}
+		}
+		r.Eval(cnt)
+		r.AddStates(cnt)
+		r.AddTransitions(cnt)
+		r.AddNontrivial(cnt)
+		r.Bound("long-lines", "one line of each of 5 kinds at 12 lengths (100 .. 150 000 bytes; thorough 1 100 000), LF and CRLF, whole and chunked reads")
+	}})
+	// big files through every file entry point, in every scratch directory (distinct file systems)
+	for _, mb := range []int{1, tier2(tier, 12, 40)} {
+		mb := mb
+		us = append(us, mc.Unit{Name: fmt.Sprintf("big-files/%dMB", mb), Weight: 100 * mb, Run: func(r *mc.Recorder) {
+			var cnt int64
+			nrec := mb * 1000000 / 300000
+			if nrec < 3 {
+				nrec = 3
+			}
+			var list []fasta.Fasta
+			for i := 0; i <= nrec; i++ {
+				list = append(list, fasta.Fasta{Name: fmt.Sprintf("rec%d len300000", i), Sequence: lcgString("ACGT", 300000-i, uint32(i))})
+			}
+			for _, root := range scratchRoots() {
+				dir, err := os.MkdirTemp(root, "verif-scratch-c13-")
+				if err != nil {
+					continue
+				}
+				func() {
+					defer os.RemoveAll(dir)
+					path := filepath.Join(dir, "big.fasta")
+					var got []fasta.Fasta
+					p := catch(func() {
+						fasta.Write(list, path)
+						got = fasta.Read(path)
+					})
+					cnt++
+					if p != "" || !c13equal(got, list) {
+						r.Failf("write-read", fmt.Sprintf("Write/Read of %d records of about 300 000 letters (%d MB) under %s", len(list), mb, root), []string{"big-file"}, fmt.Sprintf("%d records", len(list)), fmt.Sprintf("%d records %s", len(got), p))
+					}
+					b, _ := os.ReadFile(path)
+					gzp := filepath.Join(dir, "big.fasta.gz")
+					os.WriteFile(gzp, c13gz(b), 0o644)
+					p = catch(func() { got = fasta.ReadGz(gzp) })
+					cnt++
+					if p != "" || !c13equal(got, list) {
+						r.Failf("gzip-independent", fmt.Sprintf("ReadGz of %d records (%d MB) under %s", len(list), mb, root), []string{"big-file"}, fmt.Sprintf("%d records", len(list)), fmt.Sprintf("%d records %s", len(got), p))
+					}
+					for _, gz := range []bool{false, true} {
+						for _, capa := range []int{0, 1000} {
+							ch := make(chan fasta.Fasta, capa)
+							var res []fasta.Fasta
+							p = catch(func() {
+								if gz {
+									fasta.ReadGzConcurrent(gzp, ch)
+								} else {
+									fasta.ReadConcurrent(path, ch)
+								}
+								for f := range ch {
+									res = append(res, f)
+								}
+							})
+							cnt++
+							if p != "" || !c13equal(res, list) {
+								r.Failf("stream", fmt.Sprintf("ReadConcurrent gz=%v cap=%d of %d records (%d MB) under %s", gz, capa, len(list), mb, root), []string{"big-file"}, fmt.Sprintf("%d records", len(list)), fmt.Sprintf("%d records %s", len(res), p))
+							}
+						}
+					}
+				}()
+			}
+			r.Eval(cnt)
+			r.AddStates(cnt)
+			r.AddTransitions(cnt)
+			r.AddNontrivial(cnt)
+			r.Bound("big-files", fmt.Sprintf("files of 1 and %d MB through Write/Read/ReadGz/ReadConcurrent/ReadGzConcurrent in %v", tier2(tier, 12, 40), scratchRoots()))
+		}})
+	}
 	return us
 }
 
